@@ -46,8 +46,8 @@ func reflectBits(v uint64, width uint) uint64 {
 	return r
 }
 
-// refCRC: Rocksoft^tm model CRC.
-func refCRC(data []byte, width uint, poly, init uint64, refin, refout bool, xorout uint64) uint64 {
+// refCRC: Rocksoft^tm model CRC (bitwise definition).
+func refCRCBitwise(data []byte, width uint, poly, init uint64, refin, refout bool, xorout uint64) uint64 {
 	top := uint64(1) << (width - 1)
 	mask := (top << 1) - 1
 	reg := init & mask
@@ -71,10 +71,67 @@ func refCRC(data []byte, width uint, poly, init uint64, refin, refout bool, xoro
 	return (reg ^ xorout) & mask
 }
 
-func refCRC16Modbus(d []byte) uint16 { return uint16(refCRC(d, 16, 0x8005, 0xFFFF, true, true, 0)) }
-func refCRC32IEEE(d []byte) uint32 {
-	return uint32(refCRC(d, 32, 0x04C11DB7, 0xFFFFFFFF, true, true, 0xFFFFFFFF))
+type crcModel struct {
+	width         uint
+	poly, init    uint64
+	refin, refout bool
+	xorout        uint64
+	table         [256]uint64 // MSB-first byte table derived from the bitwise definition
+	rev           [256]uint64 // bit-reversed byte values
 }
+
+func newCRCModel(width uint, poly, init uint64, refin, refout bool, xorout uint64) *crcModel {
+	m := &crcModel{width: width, poly: poly, init: init, refin: refin, refout: refout, xorout: xorout}
+	top := uint64(1) << (width - 1)
+	mask := (top << 1) - 1
+	for b := 0; b < 256; b++ {
+		reg := uint64(b) << (width - 8)
+		for i := 0; i < 8; i++ {
+			if reg&top != 0 {
+				reg = ((reg << 1) ^ poly) & mask
+			} else {
+				reg = (reg << 1) & mask
+			}
+		}
+		m.table[b] = reg
+		m.rev[b] = reflectBits(uint64(b), 8)
+	}
+	// self-check of the table form against the bitwise definition
+	probe := []byte("123456789\x00\xff\x80fin-proto")
+	if m.sum(probe) != refCRCBitwise(probe, width, poly, init, refin, refout, xorout) {
+		panic("reference CRC table form disagrees with its bitwise definition")
+	}
+	return m
+}
+
+func (m *crcModel) sum(data []byte) uint64 {
+	mask := (uint64(1) << m.width) - 1
+	reg := m.init & mask
+	sh := m.width - 8
+	for _, b := range data {
+		c := uint64(b)
+		if m.refin {
+			c = m.rev[b]
+		}
+		reg = ((reg << 8) ^ m.table[((reg>>sh)^c)&0xff]) & mask
+	}
+	if m.refout {
+		reg = reflectBits(reg, m.width)
+	}
+	return (reg ^ m.xorout) & mask
+}
+
+var (
+	crc16ModbusModel = newCRCModel(16, 0x8005, 0xFFFF, true, true, 0)
+	crc32IEEEModel   = newCRCModel(32, 0x04C11DB7, 0xFFFFFFFF, true, true, 0xFFFFFFFF)
+)
+
+func refCRC(data []byte, width uint, poly, init uint64, refin, refout bool, xorout uint64) uint64 {
+	return refCRCBitwise(data, width, poly, init, refin, refout, xorout)
+}
+
+func refCRC16Modbus(d []byte) uint16 { return uint16(crc16ModbusModel.sum(d)) }
+func refCRC32IEEE(d []byte) uint32   { return uint32(crc32IEEEModel.sum(d)) }
 func refByteSum(d []byte) uint64 {
 	var s uint64
 	for _, b := range d {
